@@ -881,6 +881,12 @@ def run(chk):
     chk.unit(rtu)
     c08.check_segment_kinds(chk, rtu, rule='R06.8')
     chk.floor('R06.8', 6)
+    # R06.9: an import is bound to what the resolver returns for the module's own names: the module and field name reach resolve() as C
+    # string literals that denote exactly those bytes - for every valid name, including '?' or a control character followed by a digit
+    # (an escape sequence that absorbs the next character asks the resolver for another name); exports likewise (shared with C11 R11.7)
+    from . import c11 as _c11
+    _c11.check_string_positions(chk, tus, rule='R06.9')
+    chk.floor('R06.9', 20)
     chk.floor('R06.1', 100)
     chk.floor('R06.2', 100)
     chk.floor('R06.3', 60)
